@@ -191,6 +191,7 @@ func runCLI(id int, in cliIn, r *hlib.SplitMix64, ifa *net.Interface, inj inject
 		}
 		close(out)
 	}()
+	signalBarrier()
 	done := make(chan error, 1)
 	go func() { done <- command.VerifC17RunCommand(argv) }()
 
@@ -286,9 +287,27 @@ func runCLI(id int, in cliIn, r *hlib.SplitMix64, ifa *net.Interface, inj inject
 	return c
 }
 
+var usr1 = make(chan os.Signal, 64)
+
+// signalBarrier returns when every SIGINT this process sent itself so far has been dispatched by the Go runtime
+// (to the handlers registered at that time): a later SIGUSR1 is dispatched after them.  Without it a late SIGINT
+// meant for the previous command line could cancel the next one right after it registered its NotifyContext.
+func signalBarrier() {
+	for len(usr1) > 0 {
+		<-usr1
+	}
+	_ = syscall.Kill(os.Getpid(), syscall.SIGUSR1)
+	select {
+	case <-usr1:
+	case <-time.After(5 * time.Second):
+	}
+	time.Sleep(20 * time.Millisecond)
+}
+
 func runCLIStage(file string, w *hlib.Out, seed int64, ifaName, ifbName, tunName string) {
 	// never die of our own SIGINTs
 	signal.Notify(make(chan os.Signal, 16), os.Interrupt)
+	signal.Notify(usr1, syscall.SIGUSR1)
 	raw, err := os.ReadFile(file)
 	if err != nil {
 		panic(err)
